@@ -210,6 +210,49 @@ def plan_scripts(length):
     return plan
 
 
+def plan_scripts_tx(length):
+    """script commands QUEUED inside MULTI: EXEC runs them like direct ones (same conversion, same refusals), one after the other inside the one
+    critical section, together with ordinary commands; errors of an inner script are just that element of the EXEC reply"""
+    def plan(s, rng):
+        g = Cp.make_gen(s, rng)
+        yield ('open', 1)
+        yield ('open', 2)
+        for f in gen.SEED_COMMANDS:
+            yield ('cmd', 1, f)
+        shas = []
+        for _ in range(length):
+            src0, nk0, ka0 = gen_script(rng, g)
+            if rng.random() < 0.5:
+                yield ('cmd', 2, [b'script', b'load', src0])
+                shas.append((hashlib.sha1(src0).hexdigest().encode(), nk0, ka0))
+            if rng.random() < 0.3:
+                yield ('cmd', 1, [b'watch', rng.choice(gen.ALLKEYS)])
+                if rng.random() < 0.5:
+                    yield ('cmd', 2, g.command(rng.choice(['set', 'lpush', 'del', 'incr'])))
+            yield ('cmd', 1, [b'multi'])
+            for _ in range(rng.choice([1, 2, 3, 4])):
+                r = rng.random()
+                if r < 0.5:
+                    src, nk, ka = gen_script(rng, g)
+                    yield ('cmd', 1, [b'eval', src, str(nk).encode()] + ka)
+                elif r < 0.65 and shas:
+                    sha, nk, ka = rng.choice(shas)
+                    if rng.random() < 0.25:
+                        sha = rng.choice([b'0' * 40, sha.upper()])
+                    yield ('cmd', 1, [b'evalsha', sha, str(nk).encode()] + ka)
+                elif r < 0.75:
+                    yield ('cmd', 1, rng.choice([[b'script', b'exists'] + [x[0] for x in shas[:2]], [b'script', b'flush'], [b'script', b'load', src0], [b'script', b'nosuch']]))
+                elif r < 0.8:
+                    yield ('cmd', 1, rng.choice([[b'eval'], [b'eval', b'return 1'], [b'eval', b'return 1', b'x'], [b'evalsha', b'abc']]))
+                else:
+                    yield ('cmd', 1, g.command(rng.choice(CALLABLE)))
+            yield ('cmd', 1, rng.choice([[b'exec'], [b'exec'], [b'exec'], [b'discard']]))
+            yield ('cmd', 2, g.command(rng.choice(['get', 'lrange', 'dbsize', 'keys'])))
+            if rng.random() < 0.2:
+                yield ('adv', rng.choice([1, 1000]))
+    return plan
+
+
 def available():
     try:
         import lupa  # noqa
